@@ -1,9 +1,10 @@
 ID = "C15"
 
 PROP = {
-        "coq_targets": ["Properties/C15.vo", "Extract/ExC15.vo"],
+        "coq_targets": ["Extract/ExUrl.vo", "Properties/C15.vo", "Extract/ExC15.vo"],
         "driver": {"model": "c15_model.ml", "src": "drv_c15.ml", "exe": "c15_driver"},
         "bin": "c15",
+    "also": [{"bin": "urlhist", "driver": {"model": "url_model.ml", "src": "drv_url.ml", "exe": "url_driver"}, "harness_args": ["C15"]}],
         "profiles": ["dev"],
         "rule": "streams: corpus; exhaustive (parse: all byte strings of length <= 5 (quick) / 6 (thorough) over {a,&,=,+,%,4,1,0xC3,0xA9,space}, all single bytes; byte_serialize: all single bytes, all strings <= 4 / 5 over a 9-class alphabet, one-step iterator protocol <= 3; byte_serialized_unchanged on all 256 bytes; Serializer: all pair lists of length <= 2 over a 6-string pool as append_pair sequence / extend_pairs / serialize_pairs, all key-only lists <= 2, for_suffix on 10 initial contents x every start 0..=len+1 x 3 target kinds (String, &mut String, a custom Target) x 19 scripts incl. clear, encoding_override, double finish, operations after finish); random structured (query-shaped text; op histories <= 7 over pools with every delimiter, astral and NUL code points); serializer output re-parsed; malformed random bytes. A case is non-trivial when its input / op list is non-empty; distinct = distinct request lines among those.",
         "trusted_base": [
